@@ -108,6 +108,11 @@ type rec struct {
 	Signers []string `json:"signers"`
 	// tamper: how the names of the keys stripped on receipt are written (plain | esc | case); dup: of the second copy
 	Sp string `json:"sp"`
+	// tamper: the added top-level key is a variant of the protected name VK (VS: case | fold), standing VPos
+	// (before | after) the genuine member
+	VK   string `json:"vk"`
+	VS   string `json:"vs"`
+	VPos string `json:"vpos"`
 	// dup (a top-level member written twice): the member, where the smuggled copy stands, the smuggled type, and
 	// the two readings of the text as the specification sees them
 	M     string     `json:"m"`
